@@ -172,6 +172,8 @@ def check(R, F):
         R.require(not bad, 'pointer-source', 'message::writer::Writer.%s|assigned-from-write-results' % f, '', 'anchor assigned only from write_* results (or cleared / restored)', 'anchor %s is assigned from %s' % (f, bad))
     R.floor('pointer-source', 13)
 
+    wc.check_anchor_freshness(R, F)
+
     # ---- (c) disabled mode
     wcu = W + 'write_compressed_unhinted_name'
     callers_ = [(fn, b) for fn in F.fns.values() if fn.gpath.startswith('message::writer::') for b, t in calls_in(fn, wcu)]
